@@ -1213,3 +1213,39 @@ Proof.
     + apply (wf_instrs_low6 (s_asize s)). exact Hfi.
   - discriminate.
 Qed.
+
+(* ================================================================ the DWARFInfo entry points *)
+From PV Require Import Model.C06Dwarfinfo.
+
+(* the descriptor of a generated section under any descriptive name and container offset *)
+Definition desc_of (name : option (list Z)) (goff : Z) (s : ssection) : DebugSectionDescriptor :=
+  mkdsd (encode_section s) name goff (zlen (encode_section s)) (s_addr s).
+
+(* one DWARFInfo holding a .debug_frame and an .eh_frame section: whatever the names and offsets
+   in the descriptors (equal, None, swapped), each entry point returns the entries of ITS section *)
+Theorem dwarfinfo_entries sd se nd ne gd ge :
+  s_eh sd = false -> s_eh se = true -> s_le sd = s_le se -> s_asize sd = s_asize se ->
+  wf_section sd = true -> wf_section se = true ->
+  let di := mkdwarfinfo (Some (desc_of nd gd sd)) (Some (desc_of ne ge se))
+                        (mkstructs (s_le sd) 32 (Z.of_nat (s_asize sd))) in
+  CFI_entries di = Ok (expected_entries sd) /\ EH_CFI_entries di = Ok (expected_entries se).
+Proof.
+  intros Hd He Hle Has Hwd Hwe di. split.
+  - rewrite <- (entries_roundtrip sd Hwd). unfold CFI_entries, cfi_of, di, desc_of.
+    cbn [debug_frame_sec d_stream d_size d_address di_structs]. rewrite Hd. reflexivity.
+  - rewrite <- (entries_roundtrip se Hwe). unfold EH_CFI_entries, cfi_of, di, desc_of.
+    cbn [eh_frame_sec d_stream d_size d_address di_structs]. rewrite He, Hle, Has. reflexivity.
+Qed.
+
+(* ... in every history of calls on that object *)
+Theorem dwarfinfo_calls sd se nd ne gd ge calls :
+  s_eh sd = false -> s_eh se = true -> s_le sd = s_le se -> s_asize sd = s_asize se ->
+  wf_section sd = true -> wf_section se = true ->
+  cfi_calls (mkdwarfinfo (Some (desc_of nd gd sd)) (Some (desc_of ne ge se))
+                         (mkstructs (s_le sd) 32 (Z.of_nat (s_asize sd)))) calls
+  = map (fun eh : bool => Ok (expected_entries (if eh then se else sd))) calls.
+Proof.
+  intros Hd He Hle Has Hwd Hwe.
+  destruct (dwarfinfo_entries sd se nd ne gd ge Hd He Hle Has Hwd Hwe) as [E1 E2].
+  unfold cfi_calls. apply map_ext. intros [|]; assumption.
+Qed.
